@@ -117,6 +117,9 @@ fn err_code(e: &Error) -> String {
         Error::NonMinimalVarInt => "4".into(),
         Error::VisitBreak => "5".into(),
         Error::Other(c) => format!("6,{}", c),
+        // a variant added to the crate later (never produced today) must not stop the harness from compiling
+        #[allow(unreachable_patterns)]
+        _ => "7".into(),
     }
 }
 
